@@ -9,18 +9,21 @@
 EXTENDS Integers, FiniteSets, Sequences, TLC
 
 CONSTANTS Reqs,        \* request ids
-          Procs,       \* [Reqs -> 1..MachProcs]
+          Procs,       \* [Reqs -> 1..mp]
           Prio,        \* [Reqs -> Nat]
-          MachProcs,   \* procs per machine available to tasks
-          MaxP,        \* parallelism limit (procs)
+          Configs,     \* manager configurations [mp |-> procs per machine available to tasks, maxp |-> parallelism limit (procs)]
           MaxMach,     \* bound on machines ever started (model bound)
           MaxStops     \* bound on stop events
 
 Mach == 1..MaxMach
 
-VARIABLES q, granted, health, load, need, pending, batches, nstarted, offered, finished, stops, peak
+VARIABLES q, granted, health, load, need, pending, batches, nstarted, offered, finished, stops, peak,
+          cfg          \* the manager's configuration: chosen when it is created, never changed
 
-vars == <<q, granted, health, load, need, pending, batches, nstarted, offered, finished, stops, peak>>
+vars == <<q, granted, health, load, need, pending, batches, nstarted, offered, finished, stops, peak, cfg>>
+
+MachProcs == cfg.mp
+MaxP == cfg.maxp
 
 Min(a,b) == IF a < b THEN a ELSE b
 Max(a,b) == IF a > b THEN a ELSE b
@@ -47,11 +50,14 @@ After(needv, healthv, nst) ==
 (* schedule(): first-fit-decreasing with reservation.  ReqOrder / MachOrder are any
    linearisations consistent with the heaps' orders. *)
 ReqBefore(a, b) == Prio[a] < Prio[b] \/ (Prio[a] = Prio[b] /\ Procs[a] > Procs[b])
-IsReqOrder(s) == /\ Len(s) = Cardinality(q) /\ {s[i] : i \in DOMAIN s} = q
-                 /\ \A i, j \in DOMAIN s : i < j => ~ReqBefore(s[j], s[i])
-IsMachOrder(s) == /\ Len(s) = Cardinality(Ok) /\ {s[i] : i \in DOMAIN s} = Ok
-                  /\ \A i, j \in DOMAIN s : i < j => Free(s[i]) >= Free(s[j])
-Perms(S) == {s \in [1..Cardinality(S) -> S] : \A i, j \in 1..Cardinality(S) : i # j => s[i] # s[j]}
+\* the linearisations the two heaps allow: any order that respects ReqBefore / decreasing free procs
+\* (ties in any order), built by repeatedly taking a minimal element
+RECURSIVE ReqOrders(_)
+ReqOrders(S) == IF S = {} THEN {<<>>}
+                ELSE UNION {{<<x>> \o p : p \in ReqOrders(S \ {x})} : x \in {y \in S : \A z \in S : ~ReqBefore(z, y)}}
+RECURSIVE MachOrders(_)
+MachOrders(S) == IF S = {} THEN {<<>>}
+                 ELSE UNION {{<<x>> \o p : p \in MachOrders(S \ {x})} : x \in {y \in S : \A z \in S : Free(y) >= Free(z)}}
 
 RECURSIVE Pick(_,_,_)
 Pick(rs, ms, i) ==   \* returns <<r, m>> or <<>>
@@ -63,6 +69,7 @@ Pick(rs, ms, i) ==   \* returns <<r, m>> or <<>>
 Init == /\ q = {} /\ granted = [r \in Reqs |-> 0] /\ health = [m \in Mach |-> "none"]
         /\ load = [m \in Mach |-> 0] /\ need = 0 /\ pending = 0 /\ batches = <<>>
         /\ nstarted = 0 /\ offered = {} /\ finished = {} /\ stops = 0 /\ peak = 0
+        /\ cfg \in Configs
 
 Offer(r) == /\ r \notin offered
             /\ offered' = offered \cup {r}
@@ -78,8 +85,7 @@ Cancel(r) == /\ r \in q
              /\ After(need - Procs[r], health, nstarted)
              /\ UNCHANGED <<granted, health, load, nstarted, offered, stops>>
 
-Grant == \E rs \in Perms(q), ms \in Perms(Ok) :
-            /\ IsReqOrder(rs) /\ IsMachOrder(ms)
+Grant == \E rs \in ReqOrders(q), ms \in MachOrders(Ok) :
             /\ LET p == Pick(rs, ms, 1) IN
                /\ p # <<>>
                /\ q' = q \ {p[1]}
@@ -100,20 +106,31 @@ Done(r, ek) ==   \* ek \in {"nil","remote","transport"}
      /\ After(need - Procs[r], health', nstarted)
   /\ UNCHANGED <<q, granted, nstarted, offered, stops>>
 
-StartedBatch(k) ==  \* first outstanding batch returns with k machines up
-  /\ batches # <<>>
-  /\ k \in 0..Head(batches)
+RemoveAt(sq, i) == [j \in 1..(Len(sq) - 1) |-> IF j < i THEN sq[j] ELSE sq[j + 1]]
+
+\* one of the outstanding start batches returns (each batch is its own goroutine, so they may return in
+\* any order) with k of its machines up; the rest failed to boot.  All of the batch stops being pending.
+StartedBatch(i, k) ==
+  /\ i \in DOMAIN batches
+  /\ k \in 0..batches[i]
   /\ nstarted + k <= MaxMach
   /\ nstarted' = nstarted + k
   /\ health' = [m \in Mach |-> IF m \in (nstarted+1)..(nstarted+k) THEN "ok" ELSE health[m]]
-  /\ LET pend1 == pending - MachProcs * Head(batches)
+  /\ LET pend1 == pending - MachProcs * batches[i]
+         rest == RemoveAt(batches, i)
          nm == LET have == Cardinality({m \in 1..(nstarted+k) : health'[m] \in {"ok","prob"}}) * MachProcs IN
                IF have + pend1 < need /\ have + pend1 < MaxP
                THEN Min((Min(need, MaxP) - have - pend1 + MachProcs - 1) \div MachProcs, 10) ELSE 0
      IN /\ pending' = pend1 + nm * MachProcs
-        /\ batches' = IF nm > 0 THEN Append(Tail(batches), nm) ELSE Tail(batches)
+        /\ batches' = IF nm > 0 THEN Append(rest, nm) ELSE rest
   /\ peak' = Max(peak, Min(need, MaxP))
   /\ UNCHANGED <<q, granted, load, need, offered, finished, stops>>
+
+\* a cancel that arrives after its request was granted (s.index < 0): nothing changes, but the loop still
+\* falls through to the growth check (it can start more machines only when the last check was cut short
+\* by the 10-machines-per-batch limit)
+Recheck == /\ After(need, health, nstarted)
+           /\ UNCHANGED <<q, granted, health, load, need, nstarted, offered, finished, stops>>
 
 Stop(m) == /\ m \in Managed /\ stops < MaxStops
            /\ stops' = stops + 1
@@ -126,10 +143,13 @@ ProbExpire(m) == /\ m \in Started /\ health[m] = "prob"
                  /\ After(need, health', nstarted)
                  /\ UNCHANGED <<q, granted, load, need, nstarted, offered, finished, stops>>
 
-Next == \/ \E r \in Reqs : Offer(r) \/ Cancel(r) \/ \E ek \in {"nil","remote","transport"} : Done(r, ek)
+Step == \/ \E r \in Reqs : Offer(r) \/ Cancel(r) \/ \E ek \in {"nil","remote","transport"} : Done(r, ek)
         \/ Grant
-        \/ \E k \in 0..10 : StartedBatch(k)
+        \/ \E i \in 1..Len(batches), k \in 0..10 : StartedBatch(i, k)
+        \/ Recheck
         \/ \E m \in Mach : Stop(m) \/ ProbExpire(m)
+
+Next == Step /\ UNCHANGED cfg
 
 Spec == Init /\ [][Next]_vars
 
